@@ -352,7 +352,7 @@ func VerifC17_v1_run() {
 	for i := range e.ps {
 		if !e.removed[i] {
 			vAssert(closed[i], "C07/C17: GracefulStop returns only when every input that is still registered has been closed")
-			vAssert(len(e.ins[i]) == 0, "C02/C07/C17: GracefulStop returns only when every input that is still registered has been emptied (nothing written before the close is lost)")
+			vAssert(len(e.ins[i]) == 0, "C02/C06/C07/C17: GracefulStop returns only when every input that is still registered has been emptied (nothing written before the close is lost or left undelivered)")
 		}
 	}
 	vAssert(vAnd(vIsClosed(d.err), len(d.err) == 0), "C07: normal termination closes err without an error value")
